@@ -159,11 +159,55 @@ pub fn accuracy(ctx: &Ctx, rep: &mut Report) {
                 rep.count("real_valued_pairs", 1);
             }
         }
+        // full-magnitude operands whose exact product has one TINY non-zero coefficient next to
+        // coefficients of size ~2^29: b is nudged by +-1 in a few places (greedy) until the
+        // smallest product coefficient is a small non-zero integer
+        if n >= 64 {
+            for _ in 0..ctx.sz(24, 400) {
+                let a: Vec<i64> = (0..n).map(|_| rng.gen_range(-16384i64..=16384)).collect();
+                let mut b: Vec<i64> = (0..n).map(|_| rng.gen_range(-1023i64..=1023)).collect();
+                let p0 = spec::negamul_z(&a, &b);
+                let k = (0..n).min_by_key(|&i| p0[i].abs()).unwrap();
+                let mut pk = p0[k];
+                for _ in 0..12 {
+                    if pk != 0 && pk.abs() < 40 {
+                        break;
+                    }
+                    // changing b_j by s changes p_k by s * (+-a_{k-j})
+                    let mut best: Option<(usize, i64, i128)> = None;
+                    for j in 0..n {
+                        let (idx, sg) = if k >= j { (k - j, 1i128) } else { (n + k - j, -1i128) };
+                        let c = sg * a[idx] as i128;
+                        for s_ in [-1i64, 1] {
+                            if (b[j] + s_).abs() > 1024 {
+                                continue;
+                            }
+                            let np = pk + s_ as i128 * c;
+                            if np != 0 && best.map(|x| np.abs() < x.2.abs()).unwrap_or(true) {
+                                best = Some((j, s_, np));
+                            }
+                        }
+                    }
+                    match best {
+                        Some((j, s_, np)) if np.abs() < pk.abs() || pk == 0 => {
+                            b[j] += s_;
+                            pk = np;
+                        }
+                        _ => break,
+                    }
+                }
+                check_product(&a, &b, "steered tiny coefficient", rep);
+                if pk != 0 && pk.abs() < 1 << 12 {
+                    rep.count("products_with_a_tiny_coefficient", 1);
+                }
+            }
+        }
         rep.count("sizes", 1);
         rep.nontrivial(format!("n|{}", n).as_bytes());
     });
     rep.merge(r);
     rep.require("sizes", 10);
+    rep.require("products_with_a_tiny_coefficient", 20);
     rep.sample(json!({"sizes": "2..1024", "magnitudes": "|a_i| <= 2^14, |b_i| <= 2^10", "worst_product_rel": rep.stats.get("worst_product_rel"), "tolerance": TOL}));
 }
 
